@@ -50,6 +50,9 @@ EXTRA_HEADERS = [("Sec-WebSocket-Extensions", b"permessage-deflate"),
                  ("Sec-WebSocket-Extensions", b"permessage-deflate; client_max_window_bits"),
                  ("Sec-WebSocket-Extensions", b";;,,==\"\""),
                  ("X-Forwarded-For", b"1.2.3.4"), ("Cookie", b"a=b"),
+                 # (address lists of front-end proxies: shorter / longer than a server's trustXForwardedFor)
+                 ("X-Forwarded-For", b""), ("X-Forwarded-For", b"1.2.3.4, 5.6.7.8"),
+                 ("X-Forwarded-For", b"a, b, c, d"), ("X-Forwarded-For", b","),
                  ("X-Bin", b"\xff\xfe"), ("X-Utf8", "é".encode("utf8")), ("No-Colon-Line", None)]
 REQUEST_LINES = [b"GET /path?x=1 HTTP/1.1", b"POST / HTTP/1.1", b"get / HTTP/1.1", b"GET / HTTP/1.0",
                  b"GET / HTTP/2.0", b"GET / HTTP/1.1x", b"GET /", b"GET  / HTTP/1.1", b"GET /#frag HTTP/1.1",
@@ -68,6 +71,9 @@ SERVER_CFGS = [
     {"name": "extport", "externalPort": 9001},
     {"name": "v13only", "versions": [13]},
     {"name": "protocols", "protocols": ["superchat", "chat"]},
+    # servers behind N trusted front-end proxies
+    {"name": "xff1", "trustXForwardedFor": 1},
+    {"name": "xff3", "trustXForwardedFor": 3},
 ]
 ONCONNECT = ["none", "proto-first", "proto-headers", "proto-notoffered", "proto-notoffered-headers",
              "deny", "raise"]
@@ -196,7 +202,7 @@ def parse_response(raw):
 def server_endpoint(cfg, onconnect):
     from harness import ws
     opts = {}
-    for k in ("allowedOrigins", "maxConnections", "webStatus", "versions"):
+    for k in ("allowedOrigins", "maxConnections", "webStatus", "versions", "trustXForwardedFor"):
         if k in cfg:
             opts[k] = cfg[k]
     opts["allowNullOrigin"] = cfg.get("allowNullOrigin", True)
